@@ -9,6 +9,13 @@ package main
 //	prunex <hex> ...   the same in a child process (the harness re-executes itself), so that an unrecoverable runtime
 //	                   failure is observed as outcome `crash` instead of killing the run
 //
+//	dnenc <node encodings,..|->   RecordDeadNodes(CreateNode(each), 7) on a fresh PNodeDB; the record bytes are read back
+//	                   from the fake's dead_nodes column family -> "ok <hex record>" (deadNodes.MarshalMsg)
+//	dndec <hex keys,..|-> <rec>...   plants the listed keys as node entries, the records under rounds 1..n (a record
+//	                   written "=<hex>" is an intact encoding made by the harness's own encoder), runs
+//	                   PruneBelowVersion(n+1) -> "ok left=<rounds still recorded|-> nodes=<planted keys still stored|->":
+//	                   observes deadNodes.UnmarshalMsg + fromHex through what the prune deletes
+//
 // The malformed stream is derived from REAL encodings: the generator builds the canonical trie of a random content
 // with the harness's own encoder (mptcommon.go / codeccommon.go; no code of /repo), takes the stored form of its
 // nodes and mutates it: every truncation length, each separator removed / doubled, every type byte 0..15 plus high
@@ -27,6 +34,7 @@ import (
 	"math/rand"
 	"os"
 	"os/exec"
+	"sort"
 	"strings"
 	"time"
 
@@ -129,6 +137,126 @@ func runC15Mpt(ops []string) CaseResult {
 				tags["prune:record-rejected"] = true
 			}
 			grocksdb.FakeReset(dir)
+		case "dnenc":
+			dir := freshDir("c15dnenc")
+			var want []string
+			out = guardT(5*time.Second, func() string {
+				db, err := util.NewPNodeDB(dir, "")
+				if err != nil {
+					panic(err)
+				}
+				var nodes []util.Node
+				if f[1] != "-" {
+					for _, e := range strings.Split(f[1], ",") {
+						n, err := util.CreateNode(bytes.NewReader(unhx(e)))
+						if err != nil {
+							return "err"
+						}
+						nodes = append(nodes, n)
+						want = append(want, hx(n.GetHashBytes()))
+					}
+				}
+				if err := db.RecordDeadNodes(nodes, 7); err != nil {
+					return "err"
+				}
+				recs := grocksdb.FakeSnapshot(dir, "dead_nodes")
+				if len(recs) != 1 {
+					return fmt.Sprintf("err %d records", len(recs))
+				}
+				for k, v := range recs {
+					if !bytes.Equal([]byte(k), []byte{0, 0, 0, 0, 0, 0, 0, 7}) {
+						return "err key " + hx([]byte(k))
+					}
+					return "ok " + hx(v)
+				}
+				return "err"
+			})
+			if strings.HasPrefix(out, "ok ") {
+				// independent encoder: sorted distinct keys, all true
+				sort.Strings(want)
+				var uniq []string
+				for j, k := range want {
+					if j == 0 || want[j-1] != k {
+						uniq = append(uniq, k)
+					}
+				}
+				if exp := hx(deadNodesRecord(uniq)); out != "ok "+exp {
+					fail("RecordDeadNodes wrote %s, the record of these %d keys is %s", out[3:], len(uniq), exp)
+				}
+				tags["dnenc"] = true
+			} else {
+				fail("RecordDeadNodes: %s", out)
+			}
+			grocksdb.FakeReset(dir)
+		case "dndec":
+			dir := freshDir("c15dndec")
+			var planted []string
+			if f[1] != "-" {
+				planted = strings.Split(f[1], ",")
+			}
+			out = guardT(10*time.Second, func() string {
+				db, err := util.NewPNodeDB(dir, "")
+				if err != nil {
+					panic(err)
+				}
+				for _, k := range planted {
+					grocksdb.FakeRawPut(dir, unhx(k), []byte{1})
+				}
+				for j, v := range f[2:] {
+					var k [8]byte
+					binary.BigEndian.PutUint64(k[:], uint64(j+1))
+					grocksdb.FakeRawPutCF(dir, "dead_nodes", k[:], unhx(strings.TrimPrefix(v, "=")))
+				}
+				if err := db.PruneBelowVersion(context.Background(), int64(len(f)-1)); err != nil {
+					return "err"
+				}
+				var left []string
+				for k := range grocksdb.FakeSnapshot(dir, "dead_nodes") {
+					left = append(left, fmt.Sprintf("%d", binary.BigEndian.Uint64([]byte(k))))
+				}
+				sort.Slice(left, func(a, b int) bool { return len(left[a]) < len(left[b]) || len(left[a]) == len(left[b]) && left[a] < left[b] })
+				var nodes []string
+				for k := range grocksdb.FakeSnapshot(dir, "default") {
+					nodes = append(nodes, k)
+				}
+				ls, ns := strings.Join(left, ","), fmtKeys(nodes)
+				if ls == "" {
+					ls = "-"
+				}
+				return "ok left=" + ls + " nodes=" + ns
+			})
+			if !strings.HasPrefix(out, "ok ") {
+				fail("PruneBelowVersion over dead-node records: %s", out)
+			} else {
+				// every intact record must be gone together with the nodes it names
+				leftSet := map[string]bool{}
+				w := strings.Fields(out)
+				for _, l := range strings.Split(strings.TrimPrefix(w[1], "left="), ",") {
+					leftSet[l] = true
+				}
+				stored := map[string]bool{}
+				for _, k := range strings.Split(strings.TrimPrefix(w[2], "nodes="), ",") {
+					stored[k] = true
+				}
+				for j, v := range f[2:] {
+					if !strings.HasPrefix(v, "=") {
+						continue
+					}
+					tags["dndec:intact-record"] = true
+					if leftSet[fmt.Sprintf("%d", j+1)] {
+						fail("the intact record of round %d was not pruned", j+1)
+					}
+					for _, k := range intactRecordKeys(unhx(v[1:])) {
+						if stored[k] {
+							fail("node %s named by the intact record of round %d is still stored", k, j+1)
+						}
+					}
+				}
+				if w[1] != "left=-" {
+					tags["dndec:record-skipped"] = true
+				}
+			}
+			grocksdb.FakeReset(dir)
 		case "prunex":
 			out = pruneInChild(f[1:])
 			if out != "ok" && out != "err" {
@@ -226,6 +354,9 @@ func insertAt(b []byte, at int, ins []byte) []byte {
 func genC15Mpt(r *rand.Rand, tier string, idx int) []string {
 	if idx%25 == 24 {
 		return genPruneCase(r)
+	}
+	if idx%8 == 5 {
+		return genDeadNodesCase(r)
 	}
 	// a random content
 	alpha := pathAlphabets[r.Intn(len(pathAlphabets))]
@@ -392,6 +523,222 @@ func deadNodesRecord(keys []string) []byte {
 		b = append(b, 0xc3)
 	}
 	return b
+}
+
+// intactRecordKeys parses a record made by deadNodesRecord (independent of /repo): the hex keys it names.
+func intactRecordKeys(rec []byte) []string {
+	var keys []string
+	i := bytes.Index(rec, []byte("Nodes")) + 5
+	switch {
+	case rec[i] == 0xde:
+		i += 3
+	default:
+		i++
+	}
+	for i < len(rec) {
+		var n int
+		switch {
+		case rec[i] == 0xd9:
+			n, i = int(rec[i+1]), i+2
+		case rec[i] == 0xda:
+			n, i = int(rec[i+1])<<8|int(rec[i+2]), i+3
+		default:
+			n, i = int(rec[i]&0x1f), i+1
+		}
+		keys = append(keys, string(rec[i:i+n]))
+		i += n + 1
+	}
+	return keys
+}
+
+func msgpAny(r *rand.Rand, depth int) []byte {
+	switch r.Intn(14) {
+	case 0:
+		return []byte{0xc0}
+	case 1:
+		return []byte{byte(r.Intn(0x80))}
+	case 2:
+		return []byte{0xe0 | byte(r.Intn(32))}
+	case 3:
+		return append([]byte{0xcd}, 1, 2)
+	case 4:
+		return append([]byte{0xcb}, make([]byte, 8)...)
+	case 5:
+		return append([]byte{0xc4, 3}, 1, 2, 3)
+	case 6:
+		return append([]byte{0xd6, 7}, 1, 2, 3, 4) // fixext4
+	case 7:
+		return append([]byte{0xc7, 2, 9}, 1, 2) // ext8
+	case 8:
+		return msgpStr("some text")
+	case 9:
+		if depth > 3 {
+			return []byte{0x90}
+		}
+		n := r.Intn(4)
+		b := []byte{0x90 | byte(n)}
+		for j := 0; j < n; j++ {
+			b = append(b, msgpAny(r, depth+1)...)
+		}
+		return b
+	case 10:
+		if depth > 3 {
+			return []byte{0x80}
+		}
+		n := r.Intn(3)
+		b := []byte{0xde, 0, byte(n)}
+		for j := 0; j < 2*n; j++ {
+			b = append(b, msgpAny(r, depth+1)...)
+		}
+		return b
+	case 11:
+		return []byte{0xc1} // never used
+	case 12:
+		return []byte{0xd3, 1, 2, 3} // int64 cut short
+	default:
+		return []byte{0xc2}
+	}
+}
+
+// genDeadNodesCase: real records through RecordDeadNodes (dnenc) and the decoder observed through the prune (dndec).
+func genDeadNodesCase(r *rand.Rand) []string {
+	var ops []string
+	// dnenc: the stored form of the nodes of a random canonical trie (+ value nodes, whose hash may be nil)
+	content := map[string][]byte{}
+	var pool []string
+	for k, n := 0, r.Intn(12); k < n; k++ {
+		p := genPath(r, "ab0", pool)
+		pool = append(pool, p)
+		content[p] = unhx(genValue14(r))
+	}
+	encs := canonStored(content, uint64(r.Intn(5)), uint64(r.Intn(5)))
+	var es []string
+	for _, e := range encs {
+		es = append(es, hx(e))
+	}
+	if r.Intn(3) == 0 {
+		es = append(es, hx(append([]byte{1}, make([]byte, 16)...)), hx(append(append([]byte{1}, make([]byte, 16)...), 0x41)))
+	}
+	if len(es) > 0 && r.Intn(3) == 0 {
+		es = append(es, es[0]) // the same node twice
+	}
+	if len(es) == 0 {
+		ops = append(ops, "dnenc -")
+	} else {
+		ops = append(ops, "dnenc "+strings.Join(es, ","))
+	}
+	// dndec
+	for c := 0; c < 8; c++ {
+		var planted []string
+		op := ""
+		for k, n := 0, 1+r.Intn(4); k < n; k++ {
+			var keys []string
+			for j, m := 0, r.Intn(20); j < m; j++ {
+				h := make([]byte, 1+r.Intn(40))
+				if r.Intn(3) != 0 {
+					h = make([]byte, 32)
+				}
+				r.Read(h)
+				keys = append(keys, hex.EncodeToString(h))
+			}
+			sort.Strings(keys)
+			planted = append(planted, keys...)
+			rec := deadNodesRecord(keys)
+			intact := false
+			nodesAt := bytes.Index(rec, []byte("Nodes")) + 5
+			switch r.Intn(20) {
+			case 0, 1, 2:
+				intact = true
+			case 3:
+				rec = rec[:r.Intn(len(rec)+1)]
+			case 4: // non-hex / odd-length / upper-case / empty key
+				rec = deadNodesRecord(append(keys, [][]string{{"zz"}, {"abc"}, {"ABCDEF"}, {""}}[r.Intn(4)]...))
+			case 5: // inner count one too many / one too few / far too many
+				if rec[nodesAt]&0xf0 == 0x80 {
+					rec = append([]byte(nil), rec...)
+					rec[nodesAt] = 0x80 | byte((int(rec[nodesAt]&0x0f)+[]int{1, 15, 14}[r.Intn(3)])%16)
+				} else {
+					rec = append(append(append([]byte(nil), rec[:nodesAt]...), 0xdf, 0, byte(r.Intn(16)), 0xff, 0xff), rec[nodesAt+3:]...)
+				}
+			case 6: // count exactly at the guard's boundary: as many entries announced as bytes are left
+				body := rec[nodesAt+1:]
+				if rec[nodesAt] == 0xde {
+					body = rec[nodesAt+3:]
+				}
+				for _, d := range []int{0, 1, -1}[r.Intn(3):][:1] {
+					n := len(body) + d
+					if n < 0 {
+						n = 0
+					}
+					rec = append(append(append([]byte(nil), rec[:nodesAt]...), 0xdf, byte(n>>24), byte(n>>16), byte(n>>8), byte(n)), body...)
+				}
+			case 7: // unknown fields of every kind before / after "Nodes" (msgp.Skip)
+				f1, f2 := msgpAny(r, 0), msgpAny(r, 0)
+				rec = append(append(append(append([]byte{0x83}, msgpStr("x")...), f1...), rec[1:]...), append(msgpStr("yy"), f2...)...)
+			case 8: // deep nesting in a skipped field
+				nest := bytes.Repeat([]byte{0x91}, 1+r.Intn(3000))
+				rec = append(append([]byte{0x82}, msgpStr("x")...), append(append(nest, 0xc0), rec[1:]...)...)
+			case 9: // values false / of the wrong type
+				rec = bytes.ReplaceAll(rec, []byte{0xc3}, [][]byte{{0xc2}, {0x01}, {0xc0}}[r.Intn(3)])
+			case 10: // "Nodes" twice: the second map replaces the first
+				second := deadNodesRecord(keys[:len(keys)/2])
+				rec = append(append([]byte{0x82}, rec[1:]...), second[1:]...)
+			case 11: // field name as bin8 / with a different name
+				if r.Intn(2) == 0 {
+					rec = append([]byte{0x81, 0xc4, 5}, rec[2:]...)
+				} else {
+					rec = append([]byte{0x81, 0xa5, 'n'}, rec[3:]...)
+				}
+			case 12: // keys as str16 / str32 / bin
+				if len(keys) > 0 {
+					k0 := keys[0]
+					enc := [][]byte{append([]byte{0xda, 0, byte(len(k0))}, k0...), append([]byte{0xdb, 0, 0, 0, byte(len(k0))}, k0...), append([]byte{0xc4, byte(len(k0))}, k0...)}[r.Intn(3)]
+					rec = bytes.Replace(rec, msgpStr(k0), enc, 1)
+				}
+			case 13: // the same key twice
+				if len(keys) > 0 && len(keys) < 15 {
+					rec = deadNodesRecord(append(append([]string(nil), keys...), keys[0]))
+				}
+			case 14:
+				b := make([]byte, r.Intn(60))
+				r.Read(b)
+				rec = b
+			case 15: // outer header: empty map, map16, too many fields
+				rec = [][]byte{{0x80}, append([]byte{0xde, 0, 1}, rec[1:]...), append([]byte{0x82}, rec[1:]...), nil}[r.Intn(4)]
+			case 16: // bit flips
+				rec = append([]byte(nil), rec...)
+				for j := 0; j < 2 && len(rec) > 0; j++ {
+					rec[r.Intn(len(rec))] ^= 1 << uint(r.Intn(8))
+				}
+			case 17: // string length beyond the data
+				rec = append(append([]byte{0x81}, msgpStr("Nodes")...), 0x81, 0xdb, 0x7f, 0xff, 0xff, 0xff, 'a')
+			case 18: // trailing garbage after a complete record
+				rec = append(append([]byte(nil), rec...), msgpAny(r, 0)...)
+				intact = false
+			default:
+				rec = append([]byte(nil), rec...)
+			}
+			switch {
+			case len(rec) == 0:
+				op += " -"
+			case intact:
+				op += " =" + hx(rec)
+			default:
+				op += " " + hx(rec)
+			}
+		}
+		ks := "-"
+		if len(planted) > 0 {
+			if r.Intn(2) == 0 {
+				extra := make([]byte, 32)
+				r.Read(extra)
+				planted = append(planted, hx(extra)) // a node no record names
+			}
+			ks = strings.Join(planted, ",")
+		}
+		ops = append(ops, "dndec "+ks+op)
+	}
+	return ops
 }
 
 func genPruneCase(r *rand.Rand) []string {
